@@ -76,6 +76,12 @@ def directed() -> List[Dict[str, Any]]:
 
 def run_case(case: Dict[str, Any]) -> List[str]:
     """returns the list of clause failures (empty = the property held on this case)"""
+    import contextlib, io
+    with contextlib.redirect_stdout(io.StringIO()):      # the manager prints an "x" per dropped delivery
+        return _run_case(case)
+
+
+def _run_case(case: Dict[str, Any]) -> List[str]:
     C.use_repo()
     from . import client_corr as CC
     w = CC.World()
